@@ -19,8 +19,8 @@ type popRes struct {
 	OK bool
 }
 
-type ctxT struct {
-	l    *listz.SyncList[int]
+type ctxT[E any] struct {
+	l    *listz.SyncList[E]
 	init []int
 }
 
@@ -64,13 +64,20 @@ var checker = &sched.LinChecker{M: fifo, Droppable: func(op *core.OpRec) bool {
 type prog []string // "push:7", "pop", "len", "popwait"
 
 func scenario(name string, initN int, progs ...prog) sched.Spec {
+	return scenarioT[int](name, initN, func(v int) int { return v }, func(v int) int { return v }, progs...)
+}
+
+// scenarioT: the same scenarios for any element type. mk builds the element standing for the
+// harness value v, un reads the harness value back (a type with one value maps everything to 0: order
+// and identity are then unobservable, conservation and the Len clauses are not).
+func scenarioT[E any](name string, initN int, mk func(int) E, un func(E) int, progs ...prog) sched.Spec {
 	sc := sched.Scenario{
 		Name: fmt.Sprintf("%s/init%d", name, initN),
 		Build: func(x *core.Exec) any {
-			c := &ctxT{l: listz.NewSync[int]()}
+			c := &ctxT[E]{l: listz.NewSync[E]()}
 			for i := 0; i < initN; i++ {
-				c.l.Push(100 + i)
-				c.init = append(c.init, 100+i)
+				c.l.Push(mk(100 + i))
+				c.init = append(c.init, un(mk(100+i)))
 			}
 			for ti, p := range progs {
 				p := p
@@ -83,18 +90,18 @@ func scenario(name string, initN int, progs ...prog) sched.Spec {
 						case strings.HasPrefix(o, "push:"):
 							var v int
 							fmt.Sscanf(o, "push:%d", &v)
-							t.Op("push", v, func() any { c.l.Push(v); return nil })
+							t.Op("push", un(mk(v)), func() any { c.l.Push(mk(v)); return nil })
 						case o == "pop":
-							t.Op("pop", nil, func() any { v, ok := c.l.Pop(); return popRes{v, ok} })
+							t.Op("pop", nil, func() any { v, ok := c.l.Pop(); return popRes{un(v), ok} })
 						case o == "popwait":
-							t.Op("popwait", -1, func() any { v, ok := c.l.PopWait(-1); return popRes{v, ok} })
+							t.Op("popwait", -1, func() any { v, ok := c.l.PopWait(-1); return popRes{un(v), ok} })
 						case o == "popwait0":
-							t.Op("pop", 0, func() any { v, ok := c.l.PopWait(0); return popRes{v, ok} })
+							t.Op("pop", 0, func() any { v, ok := c.l.PopWait(0); return popRes{un(v), ok} })
 						case o == "popwaitT5":
 							// shorter than one ticker period: the deadline is reached at the first tick
-							t.Op("pop", 5, func() any { v, ok := c.l.PopWait(5 * time.Millisecond); return popRes{v, ok} })
+							t.Op("pop", 5, func() any { v, ok := c.l.PopWait(5 * time.Millisecond); return popRes{un(v), ok} })
 						case o == "popwaitT":
-							t.Op("pop", 15, func() any { v, ok := c.l.PopWait(15 * time.Millisecond); return popRes{v, ok} })
+							t.Op("pop", 15, func() any { v, ok := c.l.PopWait(15 * time.Millisecond); return popRes{un(v), ok} })
 						case o == "len":
 							n := t.Op("len", nil, func() any { return c.l.Len() }).(int)
 							if n < 0 {
@@ -107,10 +114,10 @@ func scenario(name string, initN int, progs ...prog) sched.Spec {
 			return c
 		},
 		Final: func(x *core.Exec, ctx any) {
-			c := ctx.(*ctxT)
+			c := ctx.(*ctxT[E])
 			x.SeqOp("len", nil, func() any { return c.l.Len() })
 			for i := 0; i < 16; i++ {
-				r := x.SeqOp("pop", nil, func() any { v, ok := c.l.Pop(); return popRes{v, ok} }).(popRes)
+				r := x.SeqOp("pop", nil, func() any { v, ok := c.l.Pop(); return popRes{un(v), ok} }).(popRes)
 				if !r.OK {
 					break
 				}
@@ -118,7 +125,7 @@ func scenario(name string, initN int, progs ...prog) sched.Spec {
 			x.SeqOp("len", nil, func() any { return c.l.Len() })
 		},
 		Check: func(x *core.Exec, ctx any) *core.Failure {
-			c := ctx.(*ctxT)
+			c := ctx.(*ctxT[E])
 			var s strings.Builder
 			for _, v := range c.init {
 				fmt.Fprintf(&s, "%d,", v)
@@ -153,13 +160,13 @@ func scenario(name string, initN int, progs ...prog) sched.Spec {
 			return nil
 		},
 		Probe: func(x *core.Exec, ctx any) *core.Failure {
-			if n := ctx.(*ctxT).l.Len(); n < 0 {
+			if n := ctx.(*ctxT[E]).l.Len(); n < 0 {
 				return &core.Failure{Sig: "Len|negative|frozen-state", What: fmt.Sprintf("Len() = %d at a reachable state (all threads frozen mid-operation)", n)}
 			}
 			return nil
 		},
 		MutProbe: func(x *core.Exec, ctx any) *core.Failure {
-			l := ctx.(*ctxT).l
+			l := ctx.(*ctxT[E]).l
 			n := l.Len()
 			c := 0
 			for ; c < 32; c++ {
@@ -230,8 +237,22 @@ func main() {
 			specs = append(specs, s4)
 		}
 	}
+	// element types of size zero (struct{}): a change may treat them on a path of its own (all values are
+	// equal, nothing has to be stored). Order is unobservable there; conservation, "Pop fails only if
+	// empty or overlapped" and every Len clause are checked as for int.
+	zmk, zun := func(int) struct{} { return struct{}{} }, func(struct{}) int { return 0 }
+	for init := 0; init <= 1; init++ {
+		specs = append(specs,
+			scenarioT[struct{}]("zero-size/push|pop|len,len", init, zmk, zun, prog{"push:1"}, prog{"pop"}, prog{"len", "len"}),
+			scenarioT[struct{}]("zero-size/push,push|pop,pop", init, zmk, zun, prog{"push:1", "push:2"}, prog{"pop", "pop"}),
+			scenarioT[struct{}]("zero-size/push|push|pop", init, zmk, zun, prog{"push:1"}, prog{"push:2"}, prog{"pop"}),
+			scenarioT[struct{}]("zero-size/push,pop|push,pop", init, zmk, zun, prog{"push:1", "pop"}, prog{"push:2", "pop"}),
+			scenarioT[struct{}]("zero-size/pop|pop|len", init, zmk, zun, prog{"pop"}, prog{"pop"}, prog{"len"}),
+		)
+	}
 	sched.Main("C11", specs,
 		[]string{
+			"element types: int (distinct values) in every scenario; struct{} (size zero) in five 2-3 goroutine scenarios",
 			"small scope: <= 3 goroutines x <= 2 operations, initial content 0..2; positive PopWait durations run on abstract time (the ticker is a daemon virtual thread, no wall clock)",
 			"interleaving at atomic operations is exact for Go's sequentially consistent atomics provided plain accesses are race-free, which the vector-clock detector checks on every explored schedule",
 			"spinning pushers are scheduled fairly (Musuvathi-Qadeer fair yield rule)",
